@@ -50,18 +50,64 @@ func resolveTypeIn(p *Prog, pkg *types.Package, src string) types.Type {
 	case "seq":
 		return types.NewSlice(types.Typ[types.Int])
 	}
-	if pkg != nil {
-		tv, err := types.Eval(p.SSA.Fset, pkg, token.NoPos, src)
-		if err == nil && tv.IsType() {
-			return tv.Type
-		}
+	ex, err := parserParseExpr(src)
+	if err != nil {
+		return nil
 	}
-	// search all module packages for a qualified or bare name
-	for _, pk := range p.Pkgs {
-		tv, err := types.Eval(p.SSA.Fset, pk.Types, token.NoPos, src)
-		if err == nil && tv.IsType() {
-			return tv.Type
+	return typeFromAST(p, pkg, ex)
+}
+
+func typeFromAST(p *Prog, pkg *types.Package, ex ast.Expr) types.Type {
+	switch x := ex.(type) {
+	case *ast.Ident:
+		if pkg != nil {
+			if obj := pkg.Scope().Lookup(x.Name); obj != nil {
+				if tn, ok := obj.(*types.TypeName); ok {
+					return tn.Type()
+				}
+			}
 		}
+		if obj := types.Universe.Lookup(x.Name); obj != nil {
+			if tn, ok := obj.(*types.TypeName); ok {
+				return tn.Type()
+			}
+		}
+		// bare name of a type in some module package
+		for _, pk := range p.Pkgs {
+			if obj := pk.Types.Scope().Lookup(x.Name); obj != nil {
+				if tn, ok := obj.(*types.TypeName); ok {
+					return tn.Type()
+				}
+			}
+		}
+	case *ast.SelectorExpr:
+		id, ok := x.X.(*ast.Ident)
+		if !ok {
+			return nil
+		}
+		for _, sp := range p.SSA.AllPackages() {
+			if sp.Pkg.Name() == id.Name {
+				if obj := sp.Pkg.Scope().Lookup(x.Sel.Name); obj != nil {
+					if tn, ok := obj.(*types.TypeName); ok {
+						return tn.Type()
+					}
+				}
+			}
+		}
+	case *ast.StarExpr:
+		if t := typeFromAST(p, pkg, x.X); t != nil {
+			return types.NewPointer(t)
+		}
+	case *ast.ArrayType:
+		if x.Len == nil {
+			if t := typeFromAST(p, pkg, x.Elt); t != nil {
+				return types.NewSlice(t)
+			}
+		}
+	case *ast.InterfaceType:
+		return types.NewInterfaceType(nil, nil)
+	case *ast.ParenExpr:
+		return typeFromAST(p, pkg, x.X)
 	}
 	return nil
 }
